@@ -477,6 +477,14 @@ func (g *reqGen) selection(typ string, depth int, ind string) string {
 		if g.o.UniqueKeys && !alias && used[f.name] {
 			alias = true
 		}
+		if f.name == "ghost" {
+			// always under its own name: checks count the positions keyed "ghost"
+			if used["\x00ghost"] {
+				continue
+			}
+			used["\x00ghost"] = true
+			alias = false
+		}
 		used[f.name] = true
 		b.WriteString(ind + "  ")
 		if alias {
